@@ -129,7 +129,7 @@ def apply_effin(cases, impl):
     return out
 
 
-def corner_case(r, cid, source, chain, term, nt, cs, n, design):
+def corner_case(r, cid, source, chain, term, nt, cs, n, design, trail=True):
     """designed inputs: ascending values with filters that reject a prefix / a suffix / every other
     element, so that 'the first element a worker pulls is rejected' and 'a chunk is filtered out
     completely' happen on purpose"""
@@ -158,7 +158,7 @@ def corner_case(r, cid, source, chain, term, nt, cs, n, design):
         term = term + ":" + r.choice(["Fg:%d" % half, "Fa", "F:3:2"])
     elif term == "all":
         term = "all:" + r.choice(["Fl:%d" % half, "Fa"])
-    ops = ["N:%d" % nt, "%s:%d" % cs] + stages + ["%s:%d" % cs, "N:%d" % nt]
+    ops = ["N:%d" % nt, "%s:%d" % cs] + stages + (["%s:%d" % cs, "N:%d" % nt] if trail else [])
     known = 1 if gen_harness.SOURCES[source][2] else 0
     return "id=%d shape=%s known=%d in=%s ops=%s term=%s avail=%d sched=%s fuel=100000" % (
         cid, gen_harness.shape_name(source, chain), known, ",".join(map(str, inp)) if inp else "-",
@@ -191,6 +191,13 @@ def gen_cases(tier, seed, shapes=None, per_shape=None):
             continue
         # corner grid
         _, _, eager = gen_harness.analyse(ch)
+        if eager:
+            # parameters set on the source only must govern what runs after an eager site: sequential
+            # stays sequential (exact call order), a thread bound stays a thread bound
+            for term in ["cv", "cnt", "red", "fe", "find", "cx"]:
+                for (nt, cs) in [(1, ("C", 2)), (2, ("C", 3))]:
+                    cases.append(corner_case(r, cid, src, ch, term, nt, cs, 24, "alt", trail=False))
+                    cid += 1
         terms = ["cv", "cx", "cnt", "red", "find", "first", "any", "all", "ci", "findix"]
         designs = ["prefix", "suffix", "alt"]
         k = 0
@@ -198,7 +205,9 @@ def gen_cases(tier, seed, shapes=None, per_shape=None):
         if src in gen_harness.PRE_SOURCES:
             settings = settings + [(1, ("C", 3))]          # the sequential path of a pre-advanced source
         for term in terms:
-            for (nt, cs) in settings:
+            # short-circuit terminals also in sequential mode: nothing beyond the first match is evaluated
+            extra = [(1, ("C", 2))] if term in ("find", "first", "any", "all", "findix") and src not in gen_harness.PRE_SOURCES else []
+            for (nt, cs) in settings + extra:
                 k += 1
                 n = 120 if (eager and nt == 4) else 24
                 for design in (designs if src == "vec" else [designs[k % 3]]):
